@@ -102,6 +102,8 @@ pub enum BOp {
     StartClient { hostile_server: bool },
     /// hostile server: answer client k's SYN with arbitrary limits
     HostileSynAck { k: u8, nonce: u32, rate: u32, size: u32, alloc: u32 },
+    /// the same with a receive allocation `below` bytes short of the client's own max_packet_size (0 = exactly enough)
+    HostileSynAckNear { k: u8, nonce: u32, rate: u32, below: u16 },
     /// a frame "from the server" to real client k
     ToClient { k: u8, frame: BFrame },
     ClientSend { k: u8, ch: u8, mode: u8, size: u32 },
@@ -198,18 +200,19 @@ fn bop() -> impl Strategy<Value = BOp> {
         3 => (0u8..4, prop_oneof![6 => Just(3u8), 1 => any::<u8>()], any::<u32>(), limit_strategy(), limit_strategy(), limit_strategy()).prop_map(|(addr, version, nonce, rate, size, alloc)| BOp::HostileSyn { addr, version, nonce, rate, size, alloc }),
         3 => (0u8..4).prop_map(|addr| BOp::HostileAck { addr }),
         8 => (0u8..4, bframe()).prop_map(|(addr, frame)| BOp::ToServer { addr, frame }),
-        4 => (0u8..4, 0u8..64, 0u8..4, prop_oneof![3 => 0u32..100, 2 => 100u32..5000, 1 => 5000u32..200_000]).prop_map(|(addr, ch, mode, size)| BOp::ServerSend { addr, ch, mode, size }),
+        4 => (0u8..4, 0u8..64, 0u8..4, prop_oneof![3 => 0u32..100, 2 => 100u32..5000, 1 => 5000u32..200_000, 2 => Just(u32::MAX)]).prop_map(|(addr, ch, mode, size)| BOp::ServerSend { addr, ch, mode, size }),
         1 => (0u8..4, any::<bool>()).prop_map(|(addr, now)| BOp::ServerDisconnect { addr, now }),
         2 => any::<bool>().prop_map(|hostile_server| BOp::StartClient { hostile_server }),
         3 => (0u8..3, any::<u32>(), limit_strategy(), limit_strategy(), limit_strategy()).prop_map(|(k, nonce, rate, size, alloc)| BOp::HostileSynAck { k, nonce, rate, size, alloc }),
+        2 => (0u8..3, any::<u32>(), limit_strategy(), prop_oneof![2 => Just(0u16), 4 => 1u16..30, 2 => 30u16..1500, 1 => any::<u16>()]).prop_map(|(k, nonce, rate, below)| BOp::HostileSynAckNear { k, nonce, rate, below }),
         6 => (0u8..3, bframe()).prop_map(|(k, frame)| BOp::ToClient { k, frame }),
-        4 => (0u8..3, 0u8..64, 0u8..4, prop_oneof![3 => 0u32..100, 2 => 100u32..5000, 1 => 5000u32..200_000]).prop_map(|(k, ch, mode, size)| BOp::ClientSend { k, ch, mode, size }),
+        4 => (0u8..3, 0u8..64, 0u8..4, prop_oneof![3 => 0u32..100, 2 => 100u32..5000, 1 => 5000u32..200_000, 2 => Just(u32::MAX)]).prop_map(|(k, ch, mode, size)| BOp::ClientSend { k, ch, mode, size }),
         1 => (0u8..3, any::<bool>()).prop_map(|(k, now)| BOp::ClientDisconnect { k, now }),
     ]
 }
 
 fn world_case(tier: Tier) -> BoxedStrategy<WorldCase> {
-    let size = || prop_oneof![3 => Just(1_000_000u32), 2 => 1u32..5000, 1 => Just(1u32), 1 => 5000u32..4_000_000];
+    let size = || prop_oneof![3 => Just(1_000_000u32), 2 => 1u32..5000, 1 => Just(1u32), 1 => 5000u32..4_000_000, 2 => (1u32..46, prop_oneof![Just(1448u32), Just(1472u32)], -2i32..26).prop_map(|(k, unit, d)| ((k * unit) as i32 + d).max(1) as u32)];
     (any::<u64>(), size(), size(), prop_oneof![3 => Just(2_000_000u32), 1 => 1u32..5000, 1 => Just(u32::MAX)], prop_oneof![3 => Just(2_000_000u32), 1 => 1u32..5000, 1 => Just(u32::MAX)], size(), size(), proptest::collection::vec(bop(), 1..tier.pick(80, 250)))
         .prop_map(|(seed, server_packet_size, server_alloc, server_send_rate, server_recv_rate, client_packet_size, client_alloc, ops)| WorldCase { seed, server_packet_size, server_alloc, server_send_rate, server_recv_rate, client_packet_size, client_alloc, ops })
         .prop_flat_map(|wc| {
@@ -808,6 +811,20 @@ fn run_world(c: &WorldCase) -> CaseResult {
                         let to = w.clients[*ci].addr;
                         w.send_raw(w.server_addr, to, &f.write(), 0);
                         classes.push("hostile_syn_ack");
+                    }
+                }
+            }
+            BOp::HostileSynAckNear { k, nonce, rate, below } => {
+                if !real.is_empty() {
+                    let i = *k as usize % real.len();
+                    let (ci, _, p) = &mut real[i];
+                    if let Some(cn) = p.victim_nonce {
+                        p.attacker_nonce = Some(*nonce);
+                        let alloc = ccfg.max_packet_size.saturating_sub(*below as u32);
+                        let f = Frame::HandshakeSynAckFrame(HandshakeSynAckFrame { nonce_ack: cn, nonce: *nonce, max_receive_rate: (*rate).max(1), max_packet_size: 1, max_receive_alloc: alloc });
+                        let to = w.clients[*ci].addr;
+                        w.send_raw(w.server_addr, to, &f.write(), 0);
+                        classes.push("hostile_syn_ack_allocation_near_packet_size");
                     }
                 }
             }
